@@ -1,10 +1,8 @@
 (* C09 Builder is faithful and serialisation loses nothing *)
 Load "coq/props/Hdr".
 From PM Require Import BuildG BuildGen C01P C09 Builder Assemble C08rel Final Exec.
-Lemma src_rt : rt_ok cfg. Proof. apply conds_rt_ok. vm_compute. reflexivity. Qed.
-Lemma src_tbl : tbl_ok cfg. Proof. apply conds_tbl_ok. vm_compute. reflexivity. Qed.
-Lemma src_cfg_ok : cfg_ok cfg. Proof. exact (rt_cfg _ src_rt). Qed.
-Ltac sc := sidecond_with src_rt src_tbl.
+Lemma src_rt : rt_ok cfg. Proof. prove_rt. Qed.
+Lemma src_cfg_ok : cfg_ok cfg. Proof. sc. Qed.
 (* the string form of a built PURL is accepted and yields the same fields, up to dropping insignificant segments *)
 Theorem C09_reparse_generic : forall t0 p0 t p, fields_valid cfg p0 -> build cfg G t0 p0 = Ok (t, p) ->
   format_panics cfg G t = false /\ parse cfg G (format cfg G t p) = Ok (t, norm_parts p).
@@ -52,7 +50,7 @@ Print Assumptions C09_fields_generic.
 Theorem C09_build_succeeds_iff_generic : forall t p, (exists x, build cfg G t p = Ok x) <->
   valid_type cfg t = true /\ p_name p <> [] /\ cs_well_formed cfg (p_quals p).
 Proof.
-  intros t p. rewrite (build_succeeds_iff cfg G (t_ck _ src_tbl) t p). cbn [sh_finish string_shape]. unfold str_finish. split.
+  intros t p. rewrite (build_succeeds_iff cfg G ltac:(sc) t p). cbn [sh_finish string_shape]. unfold str_finish. split.
   - intros (t1 & p1 & Ef & Hn & Hc). destruct (valid_type cfg t); [|discriminate]. injection Ef as <- <-. auto.
   - intros (Hv & Hn & Hc). rewrite Hv. do 2 eexists. split; [reflexivity|auto].
 Qed.
@@ -60,7 +58,7 @@ Print Assumptions C09_build_succeeds_iff_generic.
 Theorem C09_build_succeeds_iff_typed : forall t p, (exists x, build cfg P t p = Ok x) <->
   (t = Maven -> forallb is_empty (split c_slash (p_ns p)) = false) /\ p_name (with_name p (rule cfg t (p_name p))) <> [] /\ cs_well_formed cfg (p_quals p).
 Proof.
-  intros t p. rewrite (build_succeeds_iff cfg P (t_ck _ src_tbl) t p). cbn [sh_finish ptype_shape]. unfold pt_finish, maven_ns_missing. change (maven_ns_segments cfg) with true. cbv iota. split.
+  intros t p. rewrite (build_succeeds_iff cfg P ltac:(sc) t p). cbn [sh_finish ptype_shape]. unfold pt_finish, maven_ns_missing. change (maven_ns_segments cfg) with true. cbv iota. split.
   - intros (t1 & p1 & Ef & Hn & Hc). destruct t; try (injection Ef as <- <-; split; [discriminate|split; assumption]).
     destruct (forallb is_empty (split c_slash (p_ns p))); [discriminate|]. injection Ef as <- <-. split; [reflexivity|split; assumption].
   - intros (Hm & Hn & Hc). destruct t; try (do 2 eexists; split; [reflexivity|split; assumption]).
